@@ -16,8 +16,10 @@ PROP = dict(
               'Fit.C01.C01_ts_nonmonotone_roundtrip', 'Fit.C01.C01_ts_wild_roundtrip', 'Fit.C01.C01_fix_conservative'],
     families=[dict(name='encw'), dict(name='decw'), dict(name='rtw', prop=True)],
     # link of the wire model (A) with the reader-client model (D): the full link is FALSE (Link_wire_full_false, notes/links.md D1);
-    # the cross-check compares the two models on every decw line outside the known class (additive: checklib/props/_links.py)
-    extra=with_links(None, ['Fit.Links.Link_wire_full_false'], crosscheck=[('decw', 'linkwire')]),
+    # proved wherever (D) does not report an invalid base type; the cross-check compares the two models on every decw line
+    # (additive: checklib/props/_links.py)
+    extra=with_links(None, ['Fit.Links.Link_wire_full_false', 'Fit.Links.Link_wire_eq_decprog_partial',
+                            'Fit.Links.Link_C01_chain_decprog', 'Fit.Links.Link_C01_chain_api'], crosscheck=[('decw', 'linkwire')]),
     trusted_base=STD_TRUST + [
         "wire-level model FitModel/Wire.lean (encoder framing, LRU, compressed timestamps, header/CRC, chained files; decoder framing and timestamp tracking) is hand-written and tied by the families encw (real encoder, pass-through validator, 4 writer kinds, 10 buffer sizes), decw (real decoder on fixtures, encoder outputs and mutants, listener events) and rtw (real encode→decode with the round-trip predicate evaluated by the Lean driver)",
         "a field value is its marshalled byte string at this level; unmarshal∘marshal is C06, validation is C10",
